@@ -83,6 +83,17 @@ fn check_constants(ctx: &mut Ctx) {
     };
     ctx.sample(|| format!("{} integer constants scanned from /repo/src/abi.rs, {} reference values (glibc <elf.h>, LLVM BinaryFormat, supplement)", ABI_CONSTS.len(), r.len()));
     let mut unchecked = 0u64;
+    let mut all_ref: HashMap<String, Vec<u64>> = HashMap::new();
+    if let Ok(txt) = std::fs::read_to_string(REF_ALL_PATH) {
+        for line in txt.lines() {
+            let mut it = line.split_whitespace();
+            if let (Some(n), Some(v)) = (it.next(), it.next()) {
+                if let Ok(v) = v.parse::<u64>() {
+                    all_ref.entry(n.to_string()).or_default().push(v);
+                }
+            }
+        }
+    }
     for (name, ty, val) in ABI_CONSTS {
         ctx.eval();
         let pattern = (*val as u64) & width_mask(ty);
@@ -95,7 +106,19 @@ fn check_constants(ctx: &mut Ctx) {
                     ctx.violation(&format!("const:{name}"), format!("elf::abi::{name} = {pattern:#x} ({pattern}), the reference ({src}) says {want:#x} ({want})"));
                 }
             }
-            None => unchecked += 1,
+            None => {
+                // a name the curated table does not know (added to the crate later): every value any reference header
+                // gives that name
+                let cands: Vec<u64> = all_ref.get(*name).cloned().unwrap_or_default();
+                if cands.is_empty() {
+                    unchecked += 1;
+                } else {
+                    ctx.count("constants:compared-with-the-full-header-tables");
+                    if !cands.iter().any(|w| pattern == *w & width_mask(ty)) {
+                        ctx.violation(&format!("const:{name}"), format!("elf::abi::{name} = {pattern:#x} ({pattern}), the reference headers say {:?}", cands));
+                    }
+                }
+            }
         }
     }
     ctx.count_n("constants:unchecked(not-in-reference)", unchecked);
